@@ -51,6 +51,11 @@ def run(ctx, rec):
     if ctx.nshards > 1:
         gens = gens[ctx.shard:: ctx.nshards]
     drive(ctx, rec, gens)
+    if not q and ctx.shard == 0:
+        # the repository's own ~150 hand-written designs as one more workload for the riding monitor
+        from .. import suite
+
+        suite.run_suite(rec, "pkg" if WF else "rt", ["pkg-"] if WF else ["rt-"])
     rec.exhaustive = False
 
 
